@@ -305,6 +305,82 @@ Proof.
   exists r. split; [exact E|exact (pattern_sem_parsed p r E)].
 Qed.
 
+(* ---- required presence, per field kind, as the validator sees it --------------------- *)
+Section Presence.
+Variable re_ok : str -> bool.
+Variable re_match : str -> str -> bool.
+Variable pat_sem : str -> str -> Prop.
+Hypothesis He : engine_ok re_ok re_match pat_sem.
+
+Lemma mult_sem_absent m : mult_sem m FAbsent.
+Proof. destruct m; exact I. Qed.
+
+(* a singular field that can be absent (declared optional, or message typed): absent is
+   rejected iff the property must be set — whatever its other rules say *)
+Theorem presence_absent env idx x o :
+  wf_env env = true -> key_placement_ok (x_prop x) = true ->
+  compile_prop re_ok env idx x = Ok o -> fvalue_typed (x_prop x) FAbsent = true ->
+  (must_be_set (x_prop x) -> validate_sem re_ok re_match (defined_numbers env) o FAbsent = VReject) /\
+  (~ must_be_set (x_prop x) -> validate_sem re_ok re_match (defined_numbers env) o FAbsent = VAccept).
+Proof.
+  intros Hwf Hkp Hc Hty.
+  destruct (c12_compiled re_ok re_match pat_sem He env idx x o FAbsent Hwf Hkp Hc Hty) as [Ha Hr].
+  assert (Hx : xrule_sem pat_sem env x FAbsent <-> ~ must_be_set (x_prop x)).
+  { unfold xrule_sem, rule_sem. unfold fvalue_typed in Hty.
+    destruct (p_ty (x_prop x)) as [t|r sf t|r t]; try discriminate Hty.
+    split; [intros [H _]; exact H|intro H; split; [exact H|apply mult_sem_absent]]. }
+  split.
+  - intro Hm. apply Hr. rewrite Hx. intro H. exact (H Hm).
+  - intro Hm. apply Ha. apply Hx. exact Hm.
+Qed.
+
+(* repeated fields have no presence: "set" means non-empty. A required array (or map)
+   rejects the empty list (map), a non-required one is judged by its count rules only *)
+Theorem presence_empty_array env idx x o r sf t :
+  wf_env env = true -> key_placement_ok (x_prop x) = true ->
+  compile_prop re_ok env idx x = Ok o -> p_ty (x_prop x) = PArray r sf t ->
+  must_be_set (x_prop x) ->
+  validate_sem re_ok re_match (defined_numbers env) o (FMany []) = VReject.
+Proof.
+  intros Hwf Hkp Hc Et Hm.
+  assert (Hty : fvalue_typed (x_prop x) (FMany []) = true) by (unfold fvalue_typed; rewrite Et; reflexivity).
+  destruct (c12_compiled re_ok re_match pat_sem He env idx x o (FMany []) Hwf Hkp Hc Hty) as [_ Hr].
+  apply Hr. unfold xrule_sem, rule_sem. rewrite Et. intros [[H _] _]. exact (H Hm eq_refl).
+Qed.
+
+Theorem presence_empty_map env idx x o r t :
+  wf_env env = true -> key_placement_ok (x_prop x) = true ->
+  compile_prop re_ok env idx x = Ok o -> p_ty (x_prop x) = PMap r t ->
+  must_be_set (x_prop x) ->
+  validate_sem re_ok re_match (defined_numbers env) o (FMap []) = VReject.
+Proof.
+  intros Hwf Hkp Hc Et Hm.
+  assert (Hty : fvalue_typed (x_prop x) (FMap []) = true) by (unfold fvalue_typed; rewrite Et; reflexivity).
+  destruct (c12_compiled re_ok re_match pat_sem He env idx x o (FMap []) Hwf Hkp Hc Hty) as [_ Hr].
+  apply Hr. unfold xrule_sem, rule_sem. rewrite Et. intros [[H _] _]. exact (H Hm eq_refl).
+Qed.
+
+(* a singular field WITHOUT presence (a scalar not declared optional): the validator
+   cannot see "not set" — it reads the default value; so for it "absent" and "holds the
+   default" are one message and get one verdict *)
+Theorem presence_none_reads_default defined o :
+  has_presence o = false ->
+  validate_sem re_ok re_match defined o FAbsent
+  = validate_sem re_ok re_match defined o (FOne (zero_value (fo_kind o))).
+Proof. intro H. unfold validate_sem, got. rewrite H. reflexivity. Qed.
+
+(* required together with optional is refused by the compiler *)
+Theorem presence_required_and_optional env idx x :
+  p_req (x_prop x) = true -> p_opt (x_prop x) = true ->
+  forall o, compile_prop re_ok env idx x <> Ok o.
+Proof.
+  intros Hr Ho o Hc. apply compile_prop_ok in Hc. destruct Hc as (_ & _ & o' & Hw & _).
+  unfold write_prop in Hw. apply obind_ok in Hw. destruct Hw as (w & _ & Hw).
+  rewrite Hr, Ho in Hw. cbn [orb andb] in Hw. discriminate Hw.
+Qed.
+
+End Presence.
+
 (* ---- C04 on the compiler ------------------------------------------------------------ *)
 Lemma read_prop_with_map_ext env x o :
   read_prop env (with_map_ext x o) = read_prop env o.
